@@ -29,7 +29,7 @@ def run(chk):
     ntab = 300 if quick else 8000
     for ti in range(ntab):
         r = rng.fork(("t", ti))
-        entries, rules, letters = tablegen.gen_c06_table(r)
+        entries, rules, letters = tablegen.gen_c06_table(r, directions=("noback", "nofor"))
         ttext = tablegen.pass_table_text(entries, rules)
         tf = work / ("t%d.utb" % ti)
         tf.write_text(ttext)
@@ -90,6 +90,47 @@ def run(chk):
                 chk.violation("forward-mismatch", "multipass forward translation differs from the model: impl inlen=%s out=%s map=%s rules=%s; model %s"
                               % (res.inlen, res.out[:max(res.outlen, 0)], res.rawmap and res.rawmap[3], [x[1] for x in res.rules], m),
                               dict(case, impl=res.raw[:400], model=m))
+        # ---- backward direction: cells obtained from the main pass alone (one-to-one), random cell strings
+        cellmap = {e.chars[0]: 0x8000 | e.dots[0] for e in entries}
+        binputs = [[cellmap[c] for c in inp] for inp, _ in cases[: (15 if quick else 60)]]
+        bcases = [(b, r.choice([6 * len(b) + 20] * 3 + [r.range(0, 2 * len(b) + 2)])) for b in binputs]
+        bml = tablegen.pass_model_lines(entries, rules) + ["PB %d %s" % (cap, " ".join(map(str, b))) for b, cap in bcases]
+        bmo = common.run_model(drv, bml)
+        bcl = [trans.case_line("B", 4, b, cap, presence=12) for b, cap in bcases]
+        brs = trans.run_cases(exe, str(tf), bcl, exact=1, env=env, timeout=400, budget=200000)
+        for (b, cap), res, m, ln in zip(bcases, brs, bmo, bcl):
+            key = (ttext, "back", tuple(b), cap)
+            case = dict(table=ttext, cells=b, capacity=cap, case_line=ln)
+            if res.crash:
+                chk.count(key)
+                bad = safety.classify(res)
+                chk.violation(bad[0], "%s: %s" % (bad[1], ln[:120]), case)
+                continue
+            if res.hang is not None or m.startswith("D OUTOFFUEL"):
+                chk.count(key)
+                which = "agreed" if (res.hang is not None and m.startswith("D OUTOFFUEL")) else "impl-only" if res.hang is not None else "model-only"
+                chk.violation("hang-back:" + which, "backward multipass does not terminate (library tick site %s, model %s)" % (res.hang, m[:20]), case)
+                continue
+            if m.startswith("D UNSUPPORTED"):
+                chk.count(key, nontrivial=False)
+                chk.tally("outside_model")
+                continue
+            parts = [p.strip() for p in m[2:].split("|")]
+            cons, chars, pm = int(parts[0]), [int(x) for x in parts[1].split()], [int(x) for x in parts[2].split()]
+            ol = len(chars)
+            ok = res.ret == 1 and res.inlen == cons and res.outlen == ol and res.out[:ol] == chars
+            unset = -7777 in pm
+            if ok and res.rawmap is not None:
+                ok = res.rawmap[3][:cons] == pm[:cons]
+            chk.count(key, nontrivial=ok and chars != [c for c in b])
+            chk.tally("backward")
+            if unset:
+                chk.tally("backward_map_has_unwritten_entries")
+            if ok:
+                chk.cov["traces_validated_against_impl"] += 1
+            else:
+                chk.violation("backward-mismatch", "multipass back-translation differs from the model: impl inlen=%s out=%s map=%s; model %s"
+                              % (res.inlen, res.out[:max(res.outlen, 0)], res.rawmap and res.rawmap[3], m), dict(case, impl=res.raw[:400], model=m))
     shutil.rmtree(work, ignore_errors=True)
     chk.cov["rule"] = ("generated tables: one-to-one main pass over {a,b,c,d,space} + 0-3 literal rules in each of correct/pass2/pass3/pass4 "
                        "(look-back, brackets anywhere, literal/omit/copy actions) x strings (random; all strings up to length 4 for some tables) "
